@@ -1,5 +1,5 @@
 (* C12 — indentation is governed solely by the configured indent unit. *)
-From TV Require Import Sym SymProofs.
+From TV Require Import Sym SymProofs WideProofs.
 
 (* Reading of the property over the model. For a symbolic document D (nests a * U + b) and any unit u:
    when no line needs wrapping, rendering the instance `inst u D` emits exactly the instances of the symbolic
@@ -42,3 +42,26 @@ Example C12_example_sym : render_sym_events ex_sym = Some [SENewline (1, 0); SET
 Proof. vm_compute. reflexivity. Qed.
 Example C12_example_inst4 : render_wide (inst 4 ex_sym) = Some [10; 32; 32; 32; 32; 97; 10; 98].
 Proof. vm_compute. reflexivity. Qed.
+
+(* (theorem B) "a width large enough that no line needs wrapping" made computable: when the width is at least
+   `room d` (every text width plus every positive nest of the document) pretty's renderer equals the wide renderer,
+   so the statements above are statements about the real renderer.  The check evaluates `room` on every document
+   it dumps and compares it with the width it formats at. *)
+Theorem C12_wide_enough :
+  forall width d, room d <= width -> render width d = render_wide d.
+Proof. exact render_wide_total_eq. Qed.
+Check C12_wide_enough : forall width d, room d <= width -> render width d = render_wide d.
+Print Assumptions C12_wide_enough.
+
+(* both halves: the real renderer, at any width with room for it, lays the instance for the unit u out as the
+   instance of the one symbolic layout *)
+Theorem C12_real_renderer_scales :
+  forall u (D : sdoc) es width,
+    render_sym_events D = Some es -> room (inst u D) <= width ->
+    render_events width (inst u D) = Some (map (inst_event u) es).
+Proof. exact render_events_inst. Qed.
+Check C12_real_renderer_scales :
+  forall u (D : sdoc) es width,
+    render_sym_events D = Some es -> room (inst u D) <= width ->
+    render_events width (inst u D) = Some (map (inst_event u) es).
+Print Assumptions C12_real_renderer_scales.
